@@ -110,9 +110,11 @@ structure Obs where
   full     : Option Nat      -- what a full handshake of the two configurations negotiates
 deriving Repr, DecidableEq
 
-def dstKey (d : Nat) : String := "d" ++ toString d
-def idKey (i : Nat) : String := "i" ++ toString i
-def junkKey (n : Nat) : String := "j" ++ toString n
+/-- cache keys: the destination address, the hex form of a session identifier, the harness's
+unrelated keys. Only their distinctness matters; unary notation keeps injectivity evident. -/
+def dstKey (d : Nat) : String := String.ofList ('d' :: List.replicate d '.')
+def idKey (i : Nat) : String := String.ofList ('i' :: List.replicate i '.')
+def junkKey (n : Nat) : String := String.ofList ('j' :: List.replicate n '.')
 
 def setServer (f : Nat → LRU.State) (i : Nat) (s : LRU.State) : Nat → LRU.State :=
   fun j => if j = i then s else f j
@@ -227,71 +229,90 @@ def failed (offered returned : Option Nat) (rnd : Nat × Nat) (full : Option Nat
   { cOk := false, sOk := false, cRes := false, sRes := false, offered := offered, returned := returned,
     suite := none, peer := none, ms := none, rnd := rnd, full := full }
 
-def connect (p : Params) (src : Nat → Nat) (w0 : World) (c : Conn) : World × Obs :=
-  let off := offer p c.csuites
-  let full := pickSuite p c.ssuites off
-  -- client: loadSession, ClientHello (client random); server random
-  let (w1, loaded) := loadSession p w0 c.dst
-  let rnd := (w1.nSec, w1.nSec + 1)
-  let w2 := { w1 with nSec := w1.nSec + 2 }
-  let offered := loaded.map (fun o => (w2.heap o).id)
-  -- server: checkForResumption
-  let (w3, sess) := checkForResumption p w2 c off offered
-  match sess with
-  | some so =>
-    -- doResumeHandshake: ServerHello echoes the identifier and carries the session's suite
-    let t := w3.heap so
-    if (w3.servers c.server).zeroed.contains so then
-      -- "invalid master secret in session state" (a wiped object is never reachable: kept as a branch)
-      (cleanup p w3 c.dst loaded, failed offered none rnd full)
+/-- the identifier the client puts into its ClientHello -/
+def offeredId (w : World) (loaded : Option ObjId) : Option Nat := loaded.map (fun o => (w.heap o).id)
+
+/-- the server found the offered session usable (`so`): doResumeHandshake on the server,
+processServerHello / readFinished / sendFinished on the client -/
+def resumeBranch (p : Params) (w : World) (c : Conn) (loaded : Option ObjId) (so : ObjId)
+    (rnd : Nat × Nat) (full : Option Nat) : World × Obs :=
+  let offered := offeredId w loaded
+  -- doResumeHandshake: ServerHello echoes the identifier and carries the session's suite
+  let t := w.heap so
+  if (w.servers c.server).zeroed.contains so then
+    -- "invalid master secret in session state" (a wiped object is never reachable: kept as a branch)
+    (cleanup p w c.dst loaded, failed offered none rnd full)
+  else
+  match loaded with
+  | none => (w, failed offered offered rnd full)        -- unreachable: the offer comes from `loaded`
+  | some lo =>
+    let s := w.heap lo
+    -- processServerHello: serverResumedSession holds (same identifier); the three checks
+    let checks := s.vers == p.version && s.suite == t.suite && !(w.client.zeroed.contains lo)
+    -- readFinished at the client: same master secret, flight not damaged
+    if !checks || s.ms != t.ms || c.fault == .serverFin then
+      (cleanup p w c.dst loaded, failed offered offered rnd full)
     else
-    match loaded with
-    | none => (w3, failed offered offered rnd full)        -- unreachable: `offered` comes from `loaded`
-    | some lo =>
-      let s := w3.heap lo
-      -- processServerHello: serverResumedSession holds (same identifier); the three checks
-      let checks := s.vers == p.version && s.suite == t.suite && !(w3.client.zeroed.contains lo)
-      -- readFinished at the client: same master secret, flight not damaged
-      if !checks || s.ms != t.ms || c.fault == .serverFin then
-        (cleanup p w3 c.dst loaded, failed offered offered rnd full)
-      else
-        -- client's Finished towards the server
-        ( w3,
-          { cOk := true, sOk := c.fault != .clientFin, cRes := true, sRes := true, offered := offered,
-            returned := offered, suite := some t.suite, peer := s.peer, ms := some s.ms, rnd := rnd, full := full })
+      -- client's Finished towards the server
+      ( w,
+        { cOk := true, sOk := c.fault != .clientFin, cRes := true, sRes := true, offered := offered,
+          returned := offered, suite := some t.suite, peer := s.peer, ms := some s.ms, rnd := rnd, full := full })
+
+/-- the server runs a full handshake with suite `su` (pickCipherSuite succeeded) -/
+def fullBranch (p : Params) (src : Nat → Nat) (w : World) (c : Conn) (loaded : Option ObjId) (su : Nat)
+    (rnd : Nat × Nat) (full : Option Nat) : World × Obs :=
+  let offered := offeredId w loaded
+  -- doFullHandshake: new identifier from Config.rand; new master secret
+  let newId := src w.nId
+  let msNew := w.nSec
+  let w4 := { w with nId := w.nId + 1, nSec := w.nSec + 1 }
+  if loaded.isSome && offered == some newId then
+    -- the client takes the ServerHello for a resumption, the server runs a full handshake
+    (cleanup p w4 c.dst loaded, failed offered (some newId) rnd full)
+  else
+    let cs : Session := { id := newId, vers := p.version, suite := su, ms := msNew, peer := some c.server }
+    let ss : Session := { id := newId, vers := p.version, suite := su, ms := msNew, peer := none }
+    match c.fault with
+    | .clientFin =>
+      -- the server rejects the client's Finished; the client learns it while waiting for the server's
+      let w5 := if p.storeAfterFinished then w4 else createNewSession p w4 c.dst cs
+      (cleanup p w5 c.dst loaded, failed offered (some newId) rnd full)
+    | .serverFin =>
+      -- the server completes (session stored); the client rejects the damaged flight
+      let w5 := createSessionState p w4 c.server ss
+      let w6 := if p.storeAfterFinished then w5 else createNewSession p w5 c.dst cs
+      ( cleanup p w6 c.dst loaded,
+        { failed offered (some newId) rnd full with sOk := true, suite := some su } )
+    | .none =>
+      let w5 := createSessionState p w4 c.server ss
+      let w6 := createNewSession p w5 c.dst cs
+      ( w6,
+        { cOk := true, sOk := true, cRes := false, sRes := false, offered := offered, returned := some newId,
+          suite := some su, peer := some c.server, ms := some msNew, rnd := rnd, full := full })
+
+/-- client: loadSession, then the hellos (client random, server random) -/
+def afterLoad (p : Params) (w0 : World) (c : Conn) : World :=
+  { (loadSession p w0 c.dst).1 with nSec := (loadSession p w0 c.dst).1.nSec + 2 }
+
+/-- what loadSession returned -/
+def loadedOf (p : Params) (w0 : World) (c : Conn) : Option ObjId := (loadSession p w0 c.dst).2
+
+/-- server: checkForResumption on the offered identifier -/
+def afterCheck (p : Params) (w0 : World) (c : Conn) : World × Option ObjId :=
+  checkForResumption p (afterLoad p w0 c) c (offer p c.csuites) (offeredId (afterLoad p w0 c) (loadedOf p w0 c))
+
+def connect (p : Params) (src : Nat → Nat) (w0 : World) (c : Conn) : World × Obs :=
+  let full := pickSuite p c.ssuites (offer p c.csuites)
+  let rnd := (w0.nSec, w0.nSec + 1)
+  match (afterCheck p w0 c).2 with
+  | some so => resumeBranch p (afterCheck p w0 c).1 c (loadedOf p w0 c) so rnd full
   | none =>
     match full with
     | none =>
       -- pickCipherSuite fails: handshake_failure before any ServerHello
-      (cleanup p w3 c.dst loaded, failed offered none rnd full)
-    | some su =>
-      -- doFullHandshake: new identifier from Config.rand
-      let newId := src w3.nId
-      let msNew := w3.nSec
-      let w4 := { w3 with nId := w3.nId + 1, nSec := w3.nSec + 1 }
-      if loaded.isSome && offered == some newId then
-        -- the client takes the ServerHello for a resumption, the server runs a full handshake
-        (cleanup p w4 c.dst loaded, failed offered (some newId) rnd full)
-      else
-        let cs : Session := { id := newId, vers := p.version, suite := su, ms := msNew, peer := some c.server }
-        let ss : Session := { id := newId, vers := p.version, suite := su, ms := msNew, peer := none }
-        match c.fault with
-        | .clientFin =>
-          -- the server rejects the client's Finished; the client learns it while waiting for the server's
-          let w5 := if p.storeAfterFinished then w4 else createNewSession p w4 c.dst cs
-          (cleanup p w5 c.dst loaded, failed offered (some newId) rnd full)
-        | .serverFin =>
-          -- the server completes (session stored); the client rejects the damaged flight
-          let w5 := createSessionState p w4 c.server ss
-          let w6 := if p.storeAfterFinished then w5 else createNewSession p w5 c.dst cs
-          ( cleanup p w6 c.dst loaded,
-            { failed offered (some newId) rnd full with sOk := true, suite := some su } )
-        | .none =>
-          let w5 := createSessionState p w4 c.server ss
-          let w6 := createNewSession p w5 c.dst cs
-          ( w6,
-            { cOk := true, sOk := true, cRes := false, sRes := false, offered := offered, returned := some newId,
-              suite := some su, peer := some c.server, ms := some msNew, rnd := rnd, full := full })
+      (cleanup p (afterCheck p w0 c).1 c.dst (loadedOf p w0 c),
+       failed (offeredId (afterCheck p w0 c).1 (loadedOf p w0 c)) none rnd full)
+    | some su => fullBranch p src (afterCheck p w0 c).1 c (loadedOf p w0 c) su rnd full
 
 def step (p : Params) (src : Nat → Nat) (w : World) (c : Conn) : World × Obs :=
   connect p src (runPres p src c w c.pre) c
